@@ -1,1 +1,88 @@
+/* Contracts for unit http_retry (C17). Top-level clauses are written from the property statement:
+ *  "a request with a non-idempotent method reaches the wire in at most one attempt unless every earlier attempt provably failed before
+ *   sending a byte; idempotent requests are attempted at most budget+1 times. Deterministic framing errors are never retried" */
 
+/* ---- isIdempotentMethod: exact against RFC 9110 9.2.2 (IDEM is written from the RFC in pre.h), case-sensitive ---- */
+bool HttpClient_isIdempotentMethod_contract(iora_sv method)
+__CPROVER_requires(IORA_TRUE && method.n <= ((size_t)1 << 40) && __CPROVER_is_fresh(method.p, method.n))
+__CPROVER_assigns()
+/* M1 */ __CPROVER_ensures(__CPROVER_return_value == IDEM(method))
+;
+void h_idem(void)
+{
+  iora_sv m;
+  bool r = HttpClient_isIdempotentMethod(m);
+  IORA_CANARY("h_idem: returns");
+  if (r) { IORA_CANARY("h_idem: idempotent"); } else { IORA_CANARY("h_idem: not idempotent"); }
+}
+
+/* ---- environment: one attempt. Outcome is arbitrary: a response, HttpFramingError, HttpRequestNotSentError, or any other exception.
+ * HttpRequestNotSentError is, by its documented meaning (http_client.hpp l.65-77), the only outcome that proves no byte was sent. ---- */
+Response HttpClient_executeRequest_contract(HttpClient *self, iora_sv method, iora_sv url, iora_sv body, iora_hdrs headers)
+__CPROVER_requires(IORA_TRUE)
+/* X0 a new attempt never starts while an exception is pending */
+__CPROVER_requires(iora_exc == EXC_NONE)
+__CPROVER_requires(G_attempts >= 0 && G_attempts < 1000 && G_possibly_sent >= 0 && G_possibly_sent < 1000 && G_attempts_after_framing >= 0 && G_attempts_after_framing < 1000 && G_attempts_after_sent >= 0 && G_attempts_after_sent < 1000)
+__CPROVER_assigns(iora_exc, G_attempts, G_possibly_sent, G_framing_seen, G_attempts_after_framing, G_attempts_after_sent, G_last_ok)
+__CPROVER_ensures(iora_exc == EXC_NONE || iora_exc == EXC_HttpFramingError || iora_exc == EXC_HttpRequestNotSentError || iora_exc == EXC_runtime_error)
+__CPROVER_ensures(G_attempts == __CPROVER_old(G_attempts) + 1)
+__CPROVER_ensures(G_possibly_sent == __CPROVER_old(G_possibly_sent) + (iora_exc == EXC_HttpRequestNotSentError ? 0 : 1))
+__CPROVER_ensures(G_framing_seen == (__CPROVER_old(G_framing_seen) || iora_exc == EXC_HttpFramingError))
+__CPROVER_ensures(G_attempts_after_framing == __CPROVER_old(G_attempts_after_framing) + (__CPROVER_old(G_framing_seen) ? 1 : 0))
+__CPROVER_ensures(G_attempts_after_sent == __CPROVER_old(G_attempts_after_sent) + (__CPROVER_old(G_possibly_sent) > 0 ? 1 : 0))
+__CPROVER_ensures(G_last_ok == (iora_exc == EXC_NONE))
+;
+/* ensureInitialized may fail (transport start) before any attempt */
+void HttpClient_ensureInitialized_contract(HttpClient *self)
+__CPROVER_requires(IORA_TRUE && iora_exc == EXC_NONE)
+__CPROVER_assigns(iora_exc)
+__CPROVER_ensures(iora_exc == EXC_NONE || iora_exc == EXC_runtime_error)
+;
+
+#define RETRY_PRE \
+__CPROVER_requires(IORA_TRUE && __CPROVER_is_fresh(self, sizeof(*self)) && __CPROVER_is_fresh(headers, sizeof(*headers)) && __CPROVER_is_fresh(iora_ret, sizeof(*iora_ret))) \
+__CPROVER_requires(method.n <= ((size_t)1 << 40) && __CPROVER_is_fresh(method.p, method.n)) \
+__CPROVER_requires(iora_exc == EXC_NONE && G_attempts == 0 && G_possibly_sent == 0 && !G_framing_seen && G_attempts_after_framing == 0 && G_attempts_after_sent == 0 && !G_last_ok && G_sleeps == 0) \
+__CPROVER_requires(G_idem == IDEM(method)) \
+/* stated bound on the retry budget (see RETRIES_MAX) */ \
+__CPROVER_requires(retries <= RETRIES_MAX) \
+__CPROVER_assigns(iora_exc, iora_exc_caught, G_attempts, G_possibly_sent, G_framing_seen, G_attempts_after_framing, G_attempts_after_sent, G_last_ok, G_sleeps, G_locks, *iora_ret)
+
+/* proof "retry_safety": built-in checks (incl. signed overflow / shift of the back-off), frame, invariant, variant */
+void HttpClient_performRequest_safety(HttpClient *self, iora_sv method, iora_sv url, iora_sv body, const iora_hdrs *headers, int retries, Response *iora_ret)
+RETRY_PRE
+/* R2 */ __CPROVER_ensures(G_attempts <= (retries < 0 ? 0 : retries) + 1)
+;
+
+/* proof "retry_functional" */
+void HttpClient_performRequest_contract(HttpClient *self, iora_sv method, iora_sv url, iora_sv body, const iora_hdrs *headers, int retries, Response *iora_ret)
+RETRY_PRE
+/* R1  a non-idempotent request possibly reaches the wire in at most one attempt ... */
+__CPROVER_ensures(!G_idem ==> G_possibly_sent <= 1)
+/* R1b ... and no attempt is started after one that possibly reached the wire */
+__CPROVER_ensures(!G_idem ==> G_attempts_after_sent == 0)
+/* R2  at most budget+1 attempts, whatever the method (a negative budget counts as 0) */
+__CPROVER_ensures(G_attempts <= (retries < 0 ? 0 : retries) + 1)
+/* R3  a framing error is never followed by another attempt */
+__CPROVER_ensures(G_attempts_after_framing == 0)
+/* R4  a normal return hands out the response of the last attempt; a failure is reported as an exception, never swallowed */
+__CPROVER_ensures((iora_exc == EXC_NONE) == G_last_ok)
+__CPROVER_ensures(G_framing_seen ==> iora_exc == EXC_HttpFramingError)
+/* R5  (documented behaviour, beyond the safety property) the budget is used: a retry-eligible failure is retried until the budget is spent,
+ *     with one back-off sleep between consecutive attempts */
+__CPROVER_ensures((iora_exc == EXC_runtime_error && G_idem && G_attempts > 0) ==> G_attempts == (retries < 0 ? 0 : retries) + 1)
+__CPROVER_ensures((iora_exc == EXC_HttpRequestNotSentError) ==> G_attempts == (retries < 0 ? 0 : retries) + 1)
+__CPROVER_ensures(G_attempts > 0 ==> G_sleeps == G_attempts - 1)
+;
+
+void h_retry(void)
+{
+  HttpClient *c; iora_sv m, u, b; const iora_hdrs *h; int retries; Response *r;
+  HttpClient_performRequest(c, m, u, b, h, retries, r);
+  IORA_CANARY("h_retry: returns");
+  if (iora_exc == EXC_NONE) { IORA_CANARY("h_retry: response"); }
+  if (iora_exc == EXC_HttpFramingError) { IORA_CANARY("h_retry: framing error propagated"); }
+  if (iora_exc == EXC_HttpRequestNotSentError && G_attempts > 1) { IORA_CANARY("h_retry: not-sent retried then failed"); }
+  if (iora_exc == EXC_runtime_error && G_attempts > 1) { IORA_CANARY("h_retry: idempotent retried then failed"); }
+  if (iora_exc == EXC_runtime_error && G_attempts == 0) { IORA_CANARY("h_retry: initialisation failed"); }
+}
